@@ -305,10 +305,10 @@ SERDE = dict(
     guards=[
         # the hand-modelled skeleton around the translated arithmetic (coq/Model/Codec.v write_usize / read_usize)
         (_BW, "let value = value as u64; let length = encoded_len(value);"),
-        (_BW, "if length == 9 { // length byte is zero in this case self.write_u8(0); self.write(value.to_le_bytes()); } else {"),
+        (_BW, "if length == 9 { self.write_u8(0); self.write(value.to_le_bytes()); } else {"),
         (_BW, "self.write_bytes(&encoded_bytes[..length]);"),
         (_BR, "let first_byte = self.peek_u8()?;"),
-        (_BR, "let result = if length == 9 { // 9-byte special case self.read_u8()?; let value = self.read_array::<8>()?; u64::from_le_bytes(value) } else { let mut encoded = [0u8; 8]; let value = self.read_slice(length)?; encoded[..length].copy_from_slice(value);"),
+        (_BR, "let result = if length == 9 { self.read_u8()?; let value = self.read_array::<8>()?; u64::from_le_bytes(value) } else { let mut encoded = [0u8; 8]; let value = self.read_slice(length)?; encoded[..length].copy_from_slice(value);"),
     ],
     items=[
         fn("encoded_len", role="free"),
